@@ -325,5 +325,12 @@ def mods():
     return [
         Mod('dep_streamapi', 'dep:cipher/src/stream.rs', items=[async_trait(), stream_trait(), seek_trait()], export=True),
         Mod('dep_wrapper', 'dep:cipher/src/stream/wrapper.rs', items=[
-            Sel('struct StreamCipherCoreWrapper'), wrapper_inherent(), wrapper_stream(), wrapper_seek()], export=True),
+            Sel('struct StreamCipherCoreWrapper'), wrapper_inherent(), wrapper_stream(), wrapper_seek(),
+            Sel('impl KeySizeUser for StreamCipherCoreWrapper'), Sel('impl IvSizeUser for StreamCipherCoreWrapper'),
+            Sel('impl KeyIvInit for StreamCipherCoreWrapper', members='''
+    // C14: the byte-level cipher constructed from key and IV is the wrapper (empty buffer) around the core constructed from them
+    open spec fn kiv_post(key: Key<Self>, iv: Iv<Self>, r: Self) -> bool {
+        T::kiv_post(key, iv, r.core) && r.buffer@[0] == T::BlockSize::USIZE   // position byte = block size: nothing buffered
+    }
+''', fns={'new': FnC(props=('C14',), inherits=True, stmts={'0': BS})})], export=True),
     ]
